@@ -33,6 +33,8 @@ var locals = []poolVar{
 	{"var.r1", "RTIME", "90s"}, {"var.r2", "RTIME", "2s"},
 	{"var.ip1", "IP", `"10.0.0.1"`}, {"var.ip2", "IP", `"192.168.0.9"`},
 	{"var.t1", "TIME", `std.integer2time(1700000000)`},
+	// declared, never assigned: a not-set STRING
+	{"var.sn", "STRING", ""},
 }
 
 // objects writable/readable per scope
@@ -64,6 +66,9 @@ func poolNames(scope string) []string {
 		ns = append(ns, o+".http.Bar:k1", o+".http.Bar:k2")
 	}
 	ns = append(ns, "re.group.0", "re.group.1", "re.group.2")
+	if scope == "error" {
+		ns = append(ns, "obj.response")
+	}
 	return ns
 }
 
@@ -72,7 +77,7 @@ func snapshot(scope, tag string) string {
 	for _, n := range poolNames(scope) {
 		fmt.Fprintf(&b, "  log \"%s|%s=\" %s;\n", tag, n, n)
 		// the set/not-set distinction of strings is part of the value
-		if strings.Contains(n, ".http.") || strings.HasPrefix(n, "re.group") {
+		if strings.Contains(n, ".http.") || strings.HasPrefix(n, "re.group") || typeOf(n) == "STRING" {
 			fmt.Fprintf(&b, "  if (%s) { log \"%s|%s?=set\"; } else { log \"%s|%s?=notset\"; }\n", n, tag, n, tag, n)
 		}
 	}
@@ -131,7 +136,33 @@ sub fnest(STRING var.p) STRING {
 `
 
 // Program renders the VCL for a case.
+// regexProgram: REGEX locals cannot be logged; each is observed through matches against fixed subjects.
+// A REGEX local that was never assigned is the unsatisfiable regex.
+func regexProgram(c Case) string {
+	var b strings.Builder
+	b.WriteString("sub fre(STRING var.s, REGEX var.p) BOOL {\n  if (var.s ~ var.p) { return true; }\n  return false;\n}\n")
+	b.WriteString("sub fre2(REGEX var.p, REGEX var.q) BOOL {\n  declare local var.inner REGEX;\n  declare local var.t STRING;\n  set var.inner = \"^x\";\n  set var.t = \"abc\";\n  if (var.t ~ var.p) { return true; }\n  return false;\n}\n")
+	b.WriteString("sub probe {\n  declare local var.re1 REGEX;\n  declare local var.re2 REGEX;\n  declare local var.re3 REGEX;\n  declare local var.b1 BOOL;\n  declare local var.sabc STRING;\n  declare local var.sxyz STRING;\n  declare local var.sempty STRING;\n  set var.sabc = \"abc\";\n  set var.sxyz = \"xyz\";\n  set var.sempty = \"\";\n  set var.re3 = \"^x\";\n")
+	snap := func(tag string) {
+		for _, n := range []string{"var.re1", "var.re2", "var.re3"} {
+			for _, subj := range []string{"abc", "xyz", "empty"} {
+				fmt.Fprintf(&b, "  if (var.s%s ~ %s) { log \"%s|%s~%s=match\"; } else { log \"%s|%s~%s=nomatch\"; }\n", subj, n, tag, n, subj, tag, n, subj)
+			}
+		}
+	}
+	snap("S0")
+	for i, st := range c.Stmts {
+		b.WriteString("  " + st + "\n")
+		snap(fmt.Sprintf("S%d", i+1))
+	}
+	b.WriteString("}\n")
+	return b.String()
+}
+
 func Program(c Case) string {
+	if c.Kind == "regex" {
+		return regexProgram(c)
+	}
 	var b strings.Builder
 	b.WriteString(helpers)
 	b.WriteString("sub probe {\n")
@@ -139,7 +170,9 @@ func Program(c Case) string {
 		fmt.Fprintf(&b, "  declare local %s %s;\n", l.name, l.typ)
 	}
 	for _, l := range locals {
-		fmt.Fprintf(&b, "  set %s = %s;\n", l.name, l.init)
+		if l.init != "" {
+			fmt.Fprintf(&b, "  set %s = %s;\n", l.name, l.init)
+		}
 	}
 	for _, o := range scopeObjs[c.Scope] {
 		fmt.Fprintf(&b, "  set %s.http.Foo = \"fv\";\n  set %s.http.Bar = \"k1=v1,k2=v2\";\n  unset %s.http.Baz;\n", o, o, o)
@@ -165,11 +198,15 @@ func exprs(scope string, depth int) map[string][]typed {
 	cur := map[string][]typed{
 		"INTEGER": {{"var.i1", "var"}, {"var.i2", "var"}, {"5", "lit"}},
 		"FLOAT":   {{"var.f1", "var"}, {"var.f2", "var"}, {"2.5", "lit"}},
-		"STRING":  {{"var.s1", "var"}, {"var.s2", "var"}, {`"lit"`, "lit"}, {hdr, "hdr"}, {"req.http.Baz", "hdr-notset"}},
+		"STRING":  {{"var.s1", "var"}, {"var.s2", "var"}, {`"lit"`, "lit"}, {hdr, "hdr"}, {"req.http.Baz", "hdr-notset"}, {"var.sn", "var-notset"}},
 		"BOOL":    {{"var.b1", "var"}, {"var.b2", "var"}, {"true", "lit"}},
 		"RTIME":   {{"var.r1", "var"}, {"var.r2", "var"}, {"5s", "lit"}},
 		"IP":      {{"var.ip1", "var"}, {"var.ip2", "var"}},
 		"TIME":    {{"var.t1", "var"}, {"now", "var"}},
+	}
+	if scope == "error" {
+		// a STRING of the context that is held by reference
+		cur["STRING"] = append(cur["STRING"], typed{"obj.response", "ctx"})
 	}
 	for d := 1; d <= depth; d++ {
 		next := map[string][]typed{}
@@ -184,7 +221,7 @@ func exprs(scope string, depth int) map[string][]typed {
 			}
 			var out []typed
 			for _, e := range cur[t] {
-				if e.form != "lit" && e.form != "var" && e.form != "hdr" && e.form != "hdr-notset" {
+				if e.form != "lit" && e.form != "var" && e.form != "hdr" && e.form != "hdr-notset" && e.form != "var-notset" && e.form != "ctx" {
 					out = append(out, e)
 				}
 			}
@@ -445,6 +482,17 @@ func gen(tier string, emit func(Case)) {
 		emit(Case{Scope: sc, Kind: "call", NoPrime: true, Stmts: []string{"set var.s2 = f2(var.s1, var.i1);"}, Targets: []string{"var.s2"}, Form: "usersub:f2 (caller without captures)"})
 		emit(Case{Scope: sc, Kind: "call", NoPrime: true, Stmts: []string{"set var.s2 = fnest(var.s1);"}, Targets: []string{"var.s2"}, Form: "usersub:fnest (caller without captures)"})
 		emit(Case{Scope: sc, Kind: "call", NoPrime: true, Stmts: []string{"call callee1;", "call callee2;"}, Targets: []string{"req.http.Z1", "req.http.Z2"}, Form: "two calls (caller without captures)"})
+		// E. REGEX locals (two never assigned, one assigned): a set changes only its target, a call with REGEX parameters nothing
+		for _, t := range []string{"var.re1", "var.re2", "var.re3"} {
+			for _, pat := range []string{"^a", "^x", "c$", ""} {
+				emit(Case{Scope: sc, Kind: "regex", Stmts: []string{fmt.Sprintf("set %s = \"%s\";", t, pat)}, Targets: []string{t}, Form: "set REGEX local"})
+				emit(Case{Scope: sc, Kind: "regex", Stmts: []string{fmt.Sprintf("set %s = \"%s\";", t, pat), "set var.re2 = \"^xy\";"}, Targets: []string{t, "var.re2"}, Form: "set REGEX local twice"})
+			}
+		}
+		for _, call := range []string{`set var.b1 = fre("abc", "^a");`, `set var.b1 = fre("xyz", "^a");`, `set var.b1 = fre2("^a", "^x");`, `set var.b1 = fre(var.sxyz, var.re3);`, `set var.b1 = fre2(var.re3, var.re1);`} {
+			emit(Case{Scope: sc, Kind: "regex", Stmts: []string{call}, Targets: nil, Form: "call with REGEX parameters"})
+			emit(Case{Scope: sc, Kind: "regex", Stmts: []string{call, `set var.re1 = "c$";`}, Targets: []string{"var.re1"}, Form: "call with REGEX parameters, then set"})
+		}
 	}
 }
 
@@ -577,6 +625,9 @@ func run(c Case) engine.Result {
 				continue
 			}
 			base := strings.TrimSuffix(n, "?")
+			if c.Kind == "regex" {
+				base = strings.SplitN(base, "~", 2)[0]
+			}
 			changedAny = true
 			strict := c.Kind == "call" // a call must leave even re.group alone
 			if strict && strings.HasPrefix(base, "re.group.") || !allowed(base, c.Targets) {
@@ -603,7 +654,7 @@ var ctorRe = regexp.MustCompile(`[A-Za-z_][A-Za-z0-9_.:]*\(`)
 // classForm reduces a case's expression form to the set of constructors in it,
 // so that one root cause is one class whatever the target and operator were.
 func classForm(c Case) string {
-	if c.Kind == "hist" || c.Kind == "call" {
+	if c.Kind == "hist" || c.Kind == "call" || c.Kind == "regex" {
 		return c.Form
 	}
 	set := map[string]bool{}
